@@ -33,6 +33,10 @@ CLAIMS = {
          "whole-state differential (snapshot, actions, step count, internal log after every call) over generated machines x histories "
          "with the implementation's own random draws replayed as the oracle tape.", "DESIGN.md section 4, C05"),
 
+ "C07": ("Theorems C07_limit_gate/_zero_no_action (a limited action passes the limit check only with remaining limit > 0), C07_stay/_no_refresh (over any call "
+         "in which machine i does not change state, its limit is exactly the old limit minus the decrements logged for i, floored at 0 -- self-transitions never "
+         "refresh, other machines never consume), C07_countdown (decrement, withdrawal of the pending action and immediate LimitReached), C07_refresh, C07_others. "
+         "State changes and decrements are read off the ghost log, which the hook log comparison ties to the code.", "DESIGN.md section 4, C07"),
  "C09": ("Theorems C09_call / C09_at_most_one / C09_signallers / C09_targets over the ghost log: with nobody signalling nothing is delivered; a lone "
          "signaller (however often it signals) is excluded and every other machine index receives exactly one Signal, the signaller receiving one only if "
          "a machine answered during the round; two or more distinct signallers reach every index exactly once; the delivery list never contains a duplicate "
